@@ -34,7 +34,7 @@ _lock = threading.Lock()
 class Query:
     def __init__(self, name, harness, entry, defs=None, mode='F', bounds=None, default_unwind=2,
                  backend='sat', timeout=300, mem_gb=12, stubs=None, kf_only=None, kf_excl=(),
-                 cflags=(), extra_cbmc=(), note='', replay='direct', leak=False, functions=(), rec_bounds=None, default_rec=2, ptrovf=False):
+                 cflags=(), extra_cbmc=(), note='', replay='direct', leak=False, functions=(), rec_bounds=None, default_rec=2, ptrovf=False, vacuous_ok=False):
         self.name = name; self.harness = harness; self.entry = entry
         self.defs = dict(defs or {}); self.mode = mode
         self.bounds = dict(bounds or {})        # regex over "<SourceFunction>" or "<cfunc>" -> unwind bound
@@ -46,6 +46,7 @@ class Query:
         self.note = note; self.replay = replay; self.leak = leak
         self.functions = tuple(functions)
         self.rec_bounds = dict(rec_bounds or {}); self.default_rec = default_rec
+        self.vacuous_ok = vacuous_ok   # steering twins: an unreachable witness means "no such counterexample exists" and counts as proved
         self.ptrovf = ptrovf   # --pointer-overflow-check: off by default (optimiser-hoisted GEPs and NULL+0 give false alarms that mask later properties)
 
 
@@ -407,7 +408,9 @@ def run_query(work, q, kf_open, seed=0, do_selfcheck=True):
         hard = [x for x in real if x['kind'] not in ('unwind',)]
         if not real:
             if not wit: return done('UNDECIDED', 'harness has no reachability witness')
-            if not r['witness_reachable']: return done('UNDECIDED', 'vacuous: witness unreachable')
+            if not r['witness_reachable']:
+                if q.vacuous_ok: return done('PROVED', 'steering twin: the steered-for state is unreachable')
+                return done('UNDECIDED', 'vacuous: witness unreachable')
             if do_selfcheck:
                 sc = selfcheck(work, q, defs, q.entry, seed)
                 r['selfcheck'] = sc
@@ -432,6 +435,7 @@ def run_query(work, q, kf_open, seed=0, do_selfcheck=True):
             if ok:
                 r['tape'] = tape; r['tape_path'] = tp
                 confirmed = (x, how, excerpt, tp); break
+            r['last_unconfirmed_tape'] = tape
         if confirmed:
             x = confirmed[0]
             ex = confirmed[2] or ''
@@ -513,7 +517,7 @@ def run_property(pid, queries, meta, tier, seed, jobs=None):
             samples.append({'query': r['query'], 'entry': r.get('entry'), 'defs': r.get('defs'), 'verdict': r['verdict'],
                             'backend': r.get('backend_used'), 'solver_s': r.get('solver_s'), 'properties_checked': r.get('properties'),
                             'loops': [(l['src'], l['unwind']) for l in r.get('loops', [])][:40],
-                            'why': (r.get('why') or '')[:300], 'tape': r.get('tape', None) if r['verdict'] == 'CEX' else None,
+                            'why': (r.get('why') or '')[:300], 'tape': r.get('tape', None) if r['verdict'] == 'CEX' else r.get('last_unconfirmed_tape'), 'replays': r.get('replays'),
                             'selfcheck': r.get('selfcheck'), 'stubs': r.get('stubs') or None})
         ev = {
             'property_id': pid, 'tier': tier, 'seed': seed, 'level': 'model_checking',
